@@ -185,13 +185,20 @@ func denoteOne(g *lib.Graph, p lib.Path, from lib.ValueSet, pfx map[string]strin
 	return out
 }
 
-func c02Graph(r *rand.Rand) *lib.Graph {
+func c02Graph(r *rand.Rand) *lib.Graph { return c02GraphOpt(r, false) }
+
+// c02GraphOpt: with blank, some non-target nodes are anonymous (blank node identifiers, relabelled by JSON-LD
+// flattening; C02's probes identify nodes by a marker property, not by id).
+func c02GraphOpt(r *rand.Rand, blank bool) *lib.Graph {
 	g := lib.NewGraph()
 	n := 4 + r.Intn(5)
 	nT := 2 + r.Intn(3)
 	ids := make([]string, n)
 	for i := 0; i < n; i++ {
 		ids[i] = fmt.Sprintf("%sg%d", lib.EX, i)
+		if blank && i >= nT && r.Intn(3) == 0 {
+			ids[i] = fmt.Sprintf("_:anon%d", i)
+		}
 		switch {
 		case i < nT:
 			types := []string{lib.EX + "T"}
@@ -271,7 +278,10 @@ func c02(tier string) {
 func c02Workload(ctx *lib.Ctx, nCases, K int) {
 	ctx.ForEach(nCases, func(i int) {
 		r := lib.CaseRand(ctx.Seed, 3, i)
-		g := c02Graph(r)
+		g := c02GraphOpt(r, (i/16)%3 == 1)
+		if (i/16)%3 == 1 {
+			ctx.Count("graphs_with_anonymous_nodes", 1)
+		}
 		pfx := map[string]string{"ex": lib.EX}
 		type probe struct {
 			p       lib.Path
